@@ -45,10 +45,10 @@ Lemma no_lost_wakeup : forall s, reachable s -> sp s = SWaiting -> args s = None
 Proof. intros s R. apply (I_wait s (reachable_inv s R)). Qed.
 
 Lemma join_bounded : forall s tr s', reachable s -> closing s = true -> steps s tr = Some s' ->
-  count_sel tr + sel_rank s' <= sel_rank s /\ count_sel tr <= 9.
+  count_sel tr + sel_rank s' <= sel_rank s /\ count_sel tr <= 10.
 Proof.
   intros s tr s' R C H. pose proof (rank_steps tr s s' (reachable_inv s R) C H) as B.
-  pose proof (sel_rank_le9 s). split; lia.
+  pose proof (sel_rank_le10 s). split; lia.
 Qed.
 
 (* ---------- witnesses ---------- *)
